@@ -63,7 +63,14 @@ func init() {
 				// schedules: concurrent clients; snapshot invariant, offline interval checker and linearizability
 				return linCase(c, "C01")
 			}
-			return histCase(c, admissionOpts(c.Idx), 400)
+			o := admissionOpts(c.Idx)
+			if c.Idx%5 == 4 {
+				// a changed limit governs the jobs started after the change: reloads that raise / lower concurrency and limits
+				o.WReload = 10
+				o.FailProb = 0
+				o.Pipe.CyclicProb = 0
+			}
+			return histCase(c, o, 400)
 		},
 		MinDistinct: 20,
 	})
@@ -137,6 +144,14 @@ func init() {
 			o := admissionOpts(c.Idx + 5)
 			o.HTTP = c.Idx%2 == 0
 			o.Pipe.MaxTasks = 5
+			if c.Idx%6 == 5 {
+				// every accepted job is reported until retention removes it - and retention only removes finished jobs:
+				// histories with a store, retention_count 1-2 and explicit saves (plus the persist loop)
+				o.StoreDir = c.TmpDir
+				o.Retention = true
+				o.WSave = 12
+				o.Pipe.CyclicProb = 0
+			}
 			return histCase(c, o, 400)
 		},
 		MinDistinct: 100,
@@ -222,17 +237,17 @@ func cancelCaseParams(idx int) (drv.CancelOpts, bool) {
 	return drv.CancelOpts{}, false
 }
 
-var realCancelVariants = []drv.CancelVariant{drv.CvParkedDeliveredBeforeRelease, drv.CvParkedReleaseRacesDelivery, drv.CvInsideRun, drv.CvRacingLastExit, drv.CvWaitingPendingDelay}
+var realCancelVariants = []drv.CancelVariant{drv.CvParkedDeliveredBeforeRelease, drv.CvParkedReleaseRacesDelivery, drv.CvInsideRun, drv.CvRacingLastExit, drv.CvWaitingPendingDelay, drv.CvDeliveredAtRunEntry}
 
 func init() {
 	nDirected := drv.NumCancelVariants * 9 * 7
 	register(&Check{
 		ID: "C04", Level: "exploration",
-		Rule: "the instant is the quantifier: directed sweep = 8 cancel variants (loop parked at an iteration boundary through hook H1 with the cancel fully delivered before release / racing the release; task inside Run; racing the last task's exit; waiting behind a busy slot; waiting with pending delay; waiting with expired delay behind a busy slot; 3 concurrent duplicate cancels) x 9 graph shapes x every boundary 0..6 (number of tasks finished before), delivery observed through the runner's Cancel events; repeated with the REAL taskctl.TaskRunner and shell scripts (marker files prove which tasks executed); plus cancel-heavy conformance histories with slow-to-stop tasks. Oracles: canceled waiting job never runs a task; running job's runner is told to stop; no task begins after the stop was delivered; terminal report canceled, never plain success while tasks were left unrun or stopped; cancel result classes (second cancel = no-op, unknown id = not found, finished job unchanged). A situation is (variant, real?, #tasks, #done at the boundary, #running at park)",
+		Rule: "the instant is the quantifier: directed sweep = 9 cancel variants (cancel delivered exactly between the scheduler's launch of a task and the runner's entry, so that the runner refuses the task; loop parked at an iteration boundary through hook H1 with the cancel fully delivered before release / racing the release; task inside Run; racing the last task's exit; waiting behind a busy slot; waiting with pending delay; waiting with expired delay behind a busy slot; 3 concurrent duplicate cancels) x 9 graph shapes x every boundary 0..6 (number of tasks finished before), delivery observed through the runner's Cancel events; repeated with the REAL taskctl.TaskRunner and shell scripts (marker files prove which tasks executed); plus cancel-heavy conformance histories with slow-to-stop tasks. Oracles: canceled waiting job never runs a task; running job's runner is told to stop; no task begins after the stop was delivered; terminal report canceled, never plain success while tasks were left unrun or stopped; cancel result classes (second cancel = no-op, unknown id = not found, finished job unchanged). A situation is (variant, real?, #tasks, #done at the boundary, #running at park)",
 		Assumptions: []string{seqAssumption, "a cancel that loses the race against natural completion (every task ran to its end unstopped) may be reported as success: the oracle is silent there"},
 		Cases:       func(t string) int { return nDirected + tierN(t, 90, 1200) + tierN(t, 600, 20000) + len(drv.ProcShapes()) + tierN(t, 0, nDirected*19) },
 		RunCase: func(c *CaseCtx) *CaseResult {
-			nReal := tierN(c.Tier, 90, 1200)
+			nReal := tierN(c.Tier, 108, 1296)
 			nHist := tierN(c.Tier, 600, 20000)
 			var h *drv.HistResult
 			switch {
@@ -242,7 +257,7 @@ func init() {
 				h = drv.RunCancelCase(c.Seed, o)
 			case c.Idx < nDirected+nReal:
 				k := c.Idx - nDirected
-				o := drv.CancelOpts{Variant: realCancelVariants[k%len(realCancelVariants)], Shape: (k / 5) % 9, Boundary: (k / 45) % 7, Real: true, TmpDir: c.TmpDir}
+				o := drv.CancelOpts{Variant: realCancelVariants[k%len(realCancelVariants)], Shape: (k / 6) % 9, Boundary: (k / 54) % 7, Real: true, TmpDir: c.TmpDir}
 				if o.Shape == 2 || o.Shape >= 7 {
 					o.Shape = 0
 				}
@@ -359,6 +374,14 @@ func init() {
 			o.Pipe.CyclicProb = 0
 			o.Pipe.MaxTasks = 4
 			o.WSchedule, o.WFinish, o.WCancel, o.WFire, o.WStopRel, o.WRead, o.WReload = 32, 30, 6, 10, 2, 1, 12
+			if c.Idx < tierN(c.Tier, 2, 16) {
+				// the real reload path of the binary (SIGUSR1): edit sequences incl. going back to an earlier content
+				bin := os.Getenv("PRUNNER_BIN")
+				if bin == "" {
+					return &CaseResult{Idx: c.Idx, Inconclusive: "PRUNNER_BIN not set (bin/check builds cmd/prunner from /repo)"}
+				}
+				return simpleCase(c, drv.RunReloadBinaryCase(c.Seed, bin, c.TmpDir), 1)
+			}
 			if c.Idx%10 == 9 {
 				// schedules: reloads racing schedule requests; every job must be built from a definition that was in force
 				// while its request was in flight
